@@ -133,7 +133,7 @@ def judge(case, m):
         if cands:
             c = cands[int(rng.integers(0, len(cands)))]
             rows = rng.choice(len(df), size=min(len(df) - 1, int(rng.integers(1, 4))), replace=False)
-            if meta[c]["kind"] in ("int", "code"):
+            if meta[c]["kind"] in ("int", "code", "bool", "nint", "nfloat"):
                 df[c] = df[c].astype(float)
             df.loc[df.index[rows], c] = np.nan
             m.cls("nan-in:" + meta[c]["kind"])
